@@ -178,6 +178,17 @@ CHECKS = {
         note='Trusted: json.loads as the standard JSON parser (TLC\'s Json module rejects null); faithfulness of the rendering '
              'is not decided, only totality, well-formedness, determinism and stability under round trip.',
         technique='TLA+ serialisation state machine checked by TLC; trace validation across process environments'),
+    'C18': dict(
+        category='model_checking',
+        text='TextField.tla defines spellings of a field value (decorated directives), the respelling actions, the RFC-level '
+             'reader Meaning and the table Allowed(type) with the grammar that makes each variation insignificant. TLC checks '
+             'that every action preserves Meaning and enumerates every spelling within one (two for short values) permitted '
+             'actions of 40 canonical values of 14 field types; each spelling is parsed by the real class and compared with the '
+             'canonical spelling; compose() of the canonical value must itself parse equal.',
+        design_ref='6/C18, Appendix D',
+        note='Trusted: Allowed(type) as my reading of the RFCs; the harness tokeniser (TLC asserts that Render of the tokenised '
+             'value reproduces the canonical text); NEL (JSON) is not generated.',
+        technique='TLA+ respelling actions enumerated by TLC; replay of the generated spellings into the real parsers'),
 }
 
 NOT_APPLICABLE = {}
